@@ -521,10 +521,14 @@ def cfg_units_from_schema(schema) -> Dict[tuple, U]:
         for names, mode, fi, deco in m.validators:
             if fld.name not in names:
                 continue
+            fenv = getattr(fi, "factory_env", None) or {}
             for node in ast.walk(fi.node):
                 if isinstance(node, ast.Call) and ast.unparse(node.func).split(".")[-1] == "parse_units" \
                         and len(node.args) == 2:
-                    us = ast.unparse(node.args[1])
+                    ua = node.args[1]
+                    if isinstance(ua, ast.Name) and ua.id in fenv:
+                        ua = fenv[ua.id]        # unit captured from the factory call
+                    us = ast.unparse(ua)
                     if us.endswith("m ** 2") or us.endswith("m**2"):
                         out[path] = M2
                     else:
